@@ -659,6 +659,9 @@ func c16GenMerged(r *Rng) c16Input {
 		bs = append(bs, b)
 		prev = b.ID
 	}
+	if len(bs) > 0 && bs[len(bs)-1].Num == 0 {
+		bs[len(bs)-1].Num = uint64(1 + r.Intn(50)) // block 0 as the last block of the store: corpus only (it hangs)
+	}
 	in := c16Input{Kind: "merged", Blocks: bs}
 	for _, b := range bs {
 		in.Queries = append(in.Queries, c16Query{Num: b.Num})
@@ -1358,6 +1361,8 @@ func c16ExecFetch(in *c16Input) (*Case, error) {
 		})
 		res := ""
 		switch {
+		case end == "hang":
+			res, crashed = "QHang", true
 		case end != "":
 			res, crashed = "QPanic", true
 		case err == dstore.ErrNotFound:
@@ -1416,7 +1421,7 @@ func c16ExecMerged(in *c16Input) (*Case, error) {
 	store.SetFile("0000000000", file)
 	obs := &c16FetchObs{Files: []string{"0000000000"}}
 	var qterms []string
-	crashed := false
+	crashed, block0Hang, otherCrash := false, false, false
 	for _, q := range in.Queries {
 		var blk *pbbstream.Block
 		var err error
@@ -1425,8 +1430,21 @@ func c16ExecMerged(in *c16Input) (*Case, error) {
 		})
 		res := ""
 		switch {
+		case end == "hang":
+			res, crashed = "QHang", true
+			var maxNum uint64
+			for _, b := range in.Blocks {
+				if b.Num > maxNum {
+					maxNum = b.Num
+				}
+			}
+			if q.Num == 0 && maxNum == 0 {
+				block0Hang = true // stop block 0 means "no stop block": the file source waits for the next bundle
+			} else {
+				otherCrash = true
+			}
 		case end != "":
-			res, crashed = "QPanic", true
+			res, crashed, otherCrash = "QPanic", true, true
 		case err == dstore.ErrNotFound:
 			res = "QNotFound"
 		case err != nil:
@@ -1450,6 +1468,9 @@ func c16ExecMerged(in *c16Input) (*Case, error) {
 	cs.Class = "fetch/merged"
 	if crashed {
 		cs.Class = "fetch/merged/crash"
+		if block0Hang && !otherCrash {
+			cs.Class = "fetch/merged/block0-last-hang"
+		}
 	}
 	return cs, nil
 }
@@ -1510,6 +1531,8 @@ func c16Corpus() []any {
 				Faults: []c16Fault{{Pos: lay.starts[1] + 3, Val: 2}}})
 		}
 	}
+	// known finding C16-merged-fetch-block0-hangs: block 0 is the last block of the merged store
+	out = append(out, c16Input{Kind: "merged", Blocks: []c16Blk{mk(0, "00aa", "", 0, "t/T", []byte{1})}, Queries: []c16Query{{Num: 0}}})
 	// known finding C16-stream-start-corruption-alters: a payload that itself contains a framed
 	// message, and the header's content-type length changed so that the stream starts there
 	hidden := mk(8, "hidden", "zz", 1, "t/T", []byte{7})
